@@ -1,0 +1,7 @@
+//go:build !verif
+
+package kafka
+
+// No-op twin of verif_mux_on.go; only referenced from dead `if verifOn { ... }` branches.
+
+func verifMuxErr(err error) string { return "" }
